@@ -346,7 +346,7 @@ Definition kinit (es : denv * cst) (x : cstim) : denv * cst :=
       | None => (e, s)
       end
   | KCancel c => (e, cstep (cstep s (CCancel c)) (CLeave c false))
-  | KBackoff a => (de_backoff e (a :: dn_backoff e), s)
+  | KBackoff a => (de_backoff e (if a <? 0 then [] else a :: dn_backoff e), s)
   | KPark => (de_park e true (dn_blocked e), s)
   | KRelease => (de_park e false None, s)
   end.
